@@ -82,14 +82,15 @@ def widths(cell):
 _WORK = {}
 
 
-def module(src="geometry.cpp"):
-    if src not in _WORK:
+def module(src="geometry.cpp", extra=()):
+    key = src + "|" + " ".join(extra)
+    if key not in _WORK:
         d = tempfile.mkdtemp(prefix="vt_ll_")
         import atexit
         atexit.register(shutil.rmtree, d, True)
-        ll = L.compile_ir(GEO + "/src/" + src, INC, d)
-        _WORK[src] = (L.Module(ll), d)
-    return _WORK[src]
+        ll = L.compile_ir(GEO + "/src/" + src, INC, d, extra=extra)
+        _WORK[key] = (L.Module(ll), d)
+    return _WORK[key]
 
 
 def native(src="geometry.cpp"):
